@@ -2277,6 +2277,13 @@ static void run_line(char *line)
     else if (!strcmp(tok[0], "close")) cmd_close(tok);
     else if (!strcmp(tok[0], "del")) cmd_del(tok);
     else if (!strcmp(tok[0], "state")) cmd_state(tok);
+    else if (!strcmp(tok[0], "delkeys"))
+    {
+        /* delkeys <K>: the application is done with a key set */
+        int i;
+        for (i = 0; i < MAXKEYS; i++)
+            if (g_keys[i].used && !strcmp(g_keys[i].name, tok[1])) { if (g_keys[i].keys) matrixSslDeleteKeys(g_keys[i].keys); g_keys[i].keys = NULL; g_keys[i].used = 0; }
+    }
 #ifdef USE_CRL
     else if (!strcmp(tok[0], "crl")) cmd_crl(tok, ntok);
     else if (!strcmp(tok[0], "crlclear")) { psCRL_DeleteAll(); emit_begin(&g_out, "crlclear", NULL); emit_end(&g_out); }
